@@ -228,7 +228,9 @@ def final(ctx):
     for st in after:
         for c in [c for c in calls_in(st) if any(const_value(a) == "folder" for a in c.args)]:
             fc = cond_facts([c_ for c_ in g.conditions_at(g.nodes_of(c)) if isinstance(c_[0], ast.If) and any(c_[0] is x for x in ast.walk(ast.Module(body=fin, type_ignores=[])))])
-            ctx.check(fc in ([], [("'folder' in registry", True)]), c, "unconditionally (or when the folder type is known)", "the folder pass runs under %s: remaining folders are never cleaned" % fc)
+            # a guard "this type has remaining entries" (truthiness of the registry of that type) is harmless
+            fc = [x for x in fc if not (x[1] and x[0] in ("rtype_registry", "registry['folder']", "registry.get('folder')"))]
+            ctx.check(fc in ([], [("'folder' in registry", True)]), c, "unconditionally (or when the folder type is known / has entries)", "the folder pass runs under %s: remaining folders are never cleaned" % fc)
     for c in [c for s_ in lp.body for c in calls_in(s_) if helper and call_name(c) == helper[0].name]:
         fc = cond_facts([c_ for c_ in g.conditions_at(g.nodes_of(c)) if in_block(c_[0], lp.body)])
         ctx.check(fc == [("rtype == 'folder'", False)], c, "every other type is cleaned in the first pass", "the first pass cleans a type under %s" % fc)
